@@ -161,7 +161,7 @@ def match_known(v, known):
 
 
 def write_replay(v):
-    d = os.path.join(VERIF_DIR, "replays", v.prop)
+    d = os.path.join("/tmp/verif_mut_replays" if os.environ.get("VERIF_NOEVIDENCE") == "1" else os.path.join(VERIF_DIR, "replays"), v.prop)
     os.makedirs(d, exist_ok=True)
     blob = json.dumps(v.to_json(), sort_keys=True, default=str)
     h = hashlib.sha1(blob.encode()).hexdigest()[:12]
